@@ -1,0 +1,7 @@
+//go:build verif
+
+// Contracts for package frame, read by /verif's govc (see /verif/DESIGN.md). Comment-only: with the verif
+// tag off this file is not compiled, and with it on it adds no code.
+package frame
+
+//@ inv (*codec) codecsNonNil: forall op primitive.OpCode :: has(self.messageCodecs, op) ==> self.messageCodecs[op] != nil
